@@ -78,6 +78,8 @@ fn plan_ops(rng: &mut Rng, n: usize) -> Vec<OpKind> {
         OpKind::Branch,
         OpKind::Handoff,
         OpKind::BigMsg,
+        OpKind::HugeMsg,
+        OpKind::Msg,
     ];
     let w = crate::gen_hist::default_weights();
     for _ in 0..n {
